@@ -465,6 +465,11 @@ class Fn:
                 l = self.nodes[self.skip(n['l'])]
                 if l['k'] == 'var' and l.get('decl') == decl:
                     out.append(n['r'])
+            elif n['k'] == 'call' and n.get('op') == '=' and len(n.get('opargs', [])) == 2:
+                # assignment of a class type (QString::operator=)
+                l = self.nodes[self.skip(n['opargs'][0])]
+                if l['k'] == 'var' and l.get('decl') == decl:
+                    out.append(n['opargs'][1])
         return out
 
     def resolve_all(self, nid, depth=4):
